@@ -28,12 +28,15 @@ class CallGraph:
             self.out[id(b)] = outs
         self.by_id = {id(b): b for b in facts.bodies}
 
-    def reach(self, roots):
+    def reach(self, roots, blocked=()):
+        blocked = set(blocked)
         seen = set(id(r) for r in roots)
         stack = list(seen)
         while stack:
             x = stack.pop()
             for y in self.out.get(x, ()):
+                if y in blocked:
+                    continue
                 if y not in seen:
                     seen.add(y)
                     stack.append(y)
@@ -65,10 +68,18 @@ def contexts(fl, cg=None):
         if st.startswith(fl.cache) or st.startswith("utils::ValueRef") or st.startswith("metrics::Metrics"):
             client_roots.append(b)
     ctx = {}
+    # the closure / async block handed to spawn runs on the worker, not on the thread that spawns it
+    spawned = {id(b) for b in proc_roots if root_is(b, sp)} | {id(b) for b in pol_roots if root_is(b, psp)}
+    top_spawned = {id(b) for b in facts.children(sp)} | {id(b) for b in facts.children(psp)}
     for name, roots in (("processor", proc_roots), ("policy-worker", pol_roots), ("client", client_roots)):
-        for i in cg.reach(roots):
+        blocked = top_spawned if name == "client" else ()
+        for i in cg.reach(roots, blocked):
             ctx.setdefault(i, set()).add(name)
     return ctx, cg, {"processor": proc_roots, "policy-worker": pol_roots, "client": client_roots}
+
+
+def root_is(b, root):
+    return b.raw["root"] == root.path
 
 
 def root_of(facts, b):
@@ -222,3 +233,25 @@ def may_err(facts):
         if "->" in sig and "Result<" in sig.split("->")[-1]:
             res[b.spath] = m.of_path(b.path)
     return res, m.reason
+
+
+LEAK_OR_DUP = ("mem::forget", "ManuallyDrop::new", "ptr::read", "ptr::read_unaligned", "ptr::read_volatile", "mem::transmute_copy", "mem::zeroed", "mem::uninitialized",
+               "MaybeUninit::assume_init", "Box::leak", "ptr::copy", "ptr::copy_nonoverlapping", "intrinsics::forget")
+
+
+def leak_or_dup_calls(facts):
+    """Calls in repository code (not inside dependency macros' own closures) to primitives that
+    can leak a value (no drop) or duplicate it bitwise."""
+    out = []
+    for b in facts.bodies:
+        if not user_code(b):
+            continue
+        for bi, t in b.calls():
+            c = b.callee_of(t)
+            d = b.decl_callee_of(t)
+            if t["sp"].get("exp") and not t["sp"]["f"].startswith("src/"):
+                continue
+            for n in LEAK_OR_DUP:
+                if callee_matches(c, n) or callee_matches(d, n):
+                    out.append((b, bi, t, n))
+    return out
